@@ -16,6 +16,7 @@ func init() {
 	vpRegister("c06_envnames", vpH_c06_envnames)
 	vpRegister("c06_resign", vpH_c06_resign)
 	vpRegister("c06_rotation", vpH_c06_rotation)
+	vpRegister("c19_obs_verify", vpH_c19_obs_verify)
 }
 
 // Pipeline variable names are arbitrary strings: the env:: namespacing must
@@ -346,4 +347,41 @@ func vpH_c06_rotation() {
 	}
 	vpAssert(Verify(ctx, c2.Signature, vpKeySetOf(k2), &CommandStepWithInvariants{CommandStep: *c2, RepositoryURL: "r"}, WithEnv(penv)) == nil, "... and they verify under the key that signed them")
 	vpAssert(Verify(ctx, c2.Signature, vpKeySetOf(k1), &CommandStepWithInvariants{CommandStep: *c2, RepositoryURL: "r"}, WithEnv(penv)) != nil, "... and not under the earlier key")
+}
+
+// Verify and Sign are observers of everything they are given: the step, the
+// env map and the signature record (whose field list need not be in the order
+// this library writes) look exactly the same afterwards.
+func vpH_c19_obs_verify() {
+	ctx := context.Background()
+	step := &pipeline.CommandStep{
+		Command: "c",
+		Env:     map[string]string{"E": "v"},
+		Plugins: pipeline.Plugins{{Source: "p#v1", Config: map[string]any{}}, {Source: "q", Config: []any{}}},
+		Matrix:  &pipeline.Matrix{Setup: pipeline.MatrixSetup{"os": {"b", "a"}, "none": nil}},
+	}
+	penv := map[string]string{"P": "1", "A": "2"}
+	s := vpSigSigner(1)
+	before, benv := vpSnapshot(step), vpSnapshot(penv)
+	sig, err := Sign(ctx, s, &CommandStepWithInvariants{CommandStep: *step, RepositoryURL: "r"}, WithEnv(penv))
+	vpAssume(err == nil && sig != nil)
+	vpAssert(vpUnchanged(step, before) && vpUnchanged(penv, benv), "signing writes nothing into the step (plugins, matrix, env) or the caller's env map")
+	// the same signature with its field list in another order (the list itself is not signed)
+	rec := &pipeline.Signature{Algorithm: sig.Algorithm, Value: sig.Value}
+	n := len(sig.SignedFields)
+	switch vpInt(0, 2) {
+	case 0:
+		rec.SignedFields = append([]string{}, sig.SignedFields...)
+	case 1: // reversed
+		for i := n - 1; i >= 0; i-- {
+			rec.SignedFields = append(rec.SignedFields, sig.SignedFields[i])
+		}
+	default: // rotated
+		rec.SignedFields = append(append([]string{}, sig.SignedFields[1:]...), sig.SignedFields[0])
+	}
+	brec := vpSnapshot(rec)
+	verr := Verify(ctx, rec, s, &CommandStepWithInvariants{CommandStep: *step, RepositoryURL: "r"}, WithEnv(penv))
+	vpAssert(verr == nil, "the order of the signed-field list does not matter for verification")
+	vpAssert(vpUnchanged(rec, brec), "verifying writes nothing into the signature record (the field list keeps its order)")
+	vpAssert(vpUnchanged(step, before) && vpUnchanged(penv, benv), "verifying writes nothing into the step or the env map")
 }
